@@ -426,6 +426,9 @@ func runC20(c *Ctx) {
 						}
 						return
 					}
+					if syncHelperCallee(i) != nil {
+						return // its body is already part of this scan
+					}
 					if callee := cc.StaticCallee(); callee != nil && len(callee.Blocks) > 0 && strings.HasPrefix(FuncName(callee), "agent") {
 						visit(callee, il, depth+1)
 					}
